@@ -116,6 +116,9 @@ func runLimitsWorld(rc *RunCtx) *Outcome {
 	var sb strings.Builder
 	// a few small complete events first
 	nPre := ch.Range(0, 3, "complete events first")
+	if ch.Chance(1, 6, "many complete events first") {
+		nPre = ch.Range(4, 40, "many complete events") // more bytes of small events than the limit, possibly in one read
+	}
 	for i := 0; i < nPre; i++ {
 		sb.WriteString(fmt.Sprintf("id: %d%sdata: pre%d%s%s", i, eol, i, eol, eol))
 	}
